@@ -82,7 +82,7 @@ def _model_fixed(rpset, workers, out, timeout):
 
 def _model_reject(prop, out):
     """The strict invariants of this property on the model of the code as written: TLC must reject."""
-    text = _cfg('RemotePickle_fixed.cfg').replace('Algo = "fixed"', 'Algo = "asis"').replace('SeedCopyreg = "live"', 'SeedCopyreg = "none"')
+    text = _cfg('RemotePickle_fixed.cfg').replace('Algo = "fixed"', 'Algo = "asis"').replace('SeedCopyreg = "live"', 'SeedCopyreg = "none"').replace('KwOnlyOK = TRUE', 'KwOnlyOK = FALSE')
     text = '\n'.join(l for l in text.splitlines() if not l.startswith('INVARIANT Inv_C') or l.startswith('INVARIANT Inv_' + prop)) + '\n'
     out['reject'] = tlc.run('RemotePickleMC', cfg_text=text, env={'RP_SET': 'wit'}, workers=2, timeout=600,
                             name='reject', must_complete=False)
@@ -104,6 +104,14 @@ def _model_reject_shared(prop, out):
     text = '\n'.join(l for l in text.splitlines() if not l.startswith('INVARIANT') or l.startswith(keep)) + '\n'
     out['reject_shared'] = tlc.run('RemotePickleMC', cfg_text=text, env={'RP_SET': 'par'}, workers=2, timeout=600,
                                    name='rejectshared', must_complete=False)
+
+
+def _model_reject_kwonly(prop, out):
+    """remote_reduce before repo commit 35e075b (KwOnlyOK = FALSE: keyword-only __getnewargs_ex__ -> RuntimeError) on the
+    otherwise corrected design: TLC must reject it."""
+    text = _cfg('RemotePickle_fixed.cfg').replace('KwOnlyOK = TRUE', 'KwOnlyOK = FALSE')
+    out['reject_kwonly'] = tlc.run('RemotePickleMC', cfg_text=text, env={'RP_SET': 'wit'}, workers=2, timeout=600,
+                                   name='rejectkwonly', must_complete=False)
 
 
 def _model_wit(out):
@@ -282,7 +290,8 @@ def run(prop, tier, replay=None):
                threading.Thread(target=_model_reject, args=(prop, out)),
                threading.Thread(target=_model_wit, args=(out,)),
                threading.Thread(target=_model_reject_guard, args=(out,)),
-               threading.Thread(target=_model_reject_shared, args=(prop, out))]
+               threading.Thread(target=_model_reject_shared, args=(prop, out)),
+               threading.Thread(target=_model_reject_kwonly, args=(prop, out))]
         if tier == 'thorough':
             ths.append(threading.Thread(target=_model_live, args=(out,)))
         errs = []
@@ -330,9 +339,7 @@ def run(prop, tier, replay=None):
         if mism:
             # the other designs the spec knows: proposed fixes applied one by one or together
             base = '\n'.join(l for l in _cfg('RemotePickle_asis.cfg').splitlines() if not l.startswith('INVARIANT') or l.endswith('CaseDump')) + '\n'
-            variants = [base.replace('Algo = "asis"', 'Algo = "fixed"').replace('KwOnlyOK = FALSE', 'KwOnlyOK = TRUE'),
-                        base.replace('KwOnlyOK = FALSE', 'KwOnlyOK = TRUE'),
-                        base.replace('Algo = "asis"', 'Algo = "fixed"')]
+            variants = [base.replace('Algo = "asis"', 'Algo = "fixed"')]
             neither = list(mism)
             for vi, text in enumerate(variants):
                 if not neither:
@@ -348,7 +355,7 @@ def run(prop, tier, replay=None):
                         still.append(k)
                 neither = still
             if follows_fixed:
-                print('NOTE: property=%s %d of %d executions follow a corrected design of the spec (Algo="fixed" and/or KwOnlyOK=TRUE) '
+                print('NOTE: property=%s %d of %d executions follow the corrected design of the spec (Algo="fixed") '
                       'instead of the model of the code as written' % (prop, follows_fixed, len(jobs)))
             for k in neither[:3]:
                 n, s, m = jobs[k]
@@ -377,6 +384,10 @@ def run(prop, tier, replay=None):
     ev.add_tlc('vacuity: corrected design + guard on the left-over of a failed load in context.__init__ (must be rejected)', rg, role='vacuity')
     if not (rg.error or '').startswith('invariant:Inv_C1'):
         raise MachineryError('TLC does not reject a context.__init__ that refuses to start after a failed load: %s' % rg.error)
+    rk = out['reject_kwonly']
+    ev.add_tlc('vacuity: corrected design + remote_reduce before 35e075b (keyword-only __getnewargs_ex__ raises) (must be rejected)', rk, role='vacuity')
+    if not (rk.error or '').startswith('invariant:Inv_C1'):
+        raise MachineryError('TLC does not reject a remote_reduce that refuses keyword-only __getnewargs_ex__: %s' % rk.error)
     rs = out['reject_shared']
     ev.add_tlc('vacuity: code as written + process-wide load context, two loading threads (must be rejected)', rs, role='vacuity')
     if not (rs.error or '').startswith(('invariant:Inv_' + prop, 'invariant:AsIs_' + prop)):
@@ -387,7 +398,7 @@ def run(prop, tier, replay=None):
             'StdOp', 'StdPath', 'Warning', 'AfterFail', 'Falsy', 'LateCopyreg', 'LowProto', 'FailedThenLoad', 'ParPlain', 'NestedResidue', 'NewArgsEx', 'KwOnly']
     if rw.error or [w for w in need if w not in reached]:
         raise MachineryError('witnesses not reached: %s (%s)' % ([w for w in need if w not in reached], rw.error))
-    ev.cov['witnesses'] = {'reached': reached, 'asis_model_rejected_by': rrj.error, 'init_guard_rejected_by': rg.error, 'shared_context_rejected_by': rs.error}
+    ev.cov['witnesses'] = {'reached': reached, 'asis_model_rejected_by': rrj.error, 'init_guard_rejected_by': rg.error, 'shared_context_rejected_by': rs.error, 'kwonly_prefix_rejected_by': rk.error}
     if 'live' in out:
         ev.add_tlc('liveness: every scenario terminates', out['live'], role='vacuity')
         if out['live'].error or not out['live'].completed:
